@@ -37,6 +37,8 @@ def cov_spec(rayon):
     tdir = os.path.join(ROOT, "target-cov" + ("-rayon" if rayon else ""))
     env = dict(chk.BASE_ENV)
     env["RUSTFLAGS"] = "--cfg fir_verif -Cinstrument-coverage"
+    # build scripts and proc macros are instrumented too and would drop default_*.profraw into their package directory (/repo)
+    env["LLVM_PROFILE_FILE"] = os.path.join(WORK, "build-%p.profraw")
     argv = ["cargo", "+nightly", "build", "--release"] + (["--features", "rayon"] if rayon else [])
     return argv, env, tdir, os.path.join(tdir, "release")
 
@@ -120,6 +122,8 @@ def main():
         all_profiles.append(prof)
         report(prof, sorted(objects), os.path.join(OUT, p + ".txt"))
         print("%s: %d processes (non-zero exits: %d) -> %s" % (p, len(jobs), sum(1 for r in rcs if r), p + ".txt"), flush=True)
+    if "--report-only" in sys.argv:
+        pass
     allp = os.path.join(WORK, "ALL.profdata")
     subprocess.run([os.path.join(LLVM, "llvm-profdata"), "merge", "-sparse", "-o", allp] + all_profiles, check=True)
     report(allp, sorted(objects), os.path.join(OUT, "ALL.txt"))
@@ -139,7 +143,7 @@ def report(prof, objects, path):
                        stdout=subprocess.PIPE, stderr=subprocess.PIPE, text=True)
     lines = []
     for l in r.stdout.splitlines():
-        l = re.sub(r"^/repo/src/", "", l)
+        l = re.sub(r"^(/repo|/?verif/repo-link)/src/", "", l)
         lines.append(l)
     open(path, "w").write("\n".join(lines) + "\n")
 
@@ -165,7 +169,8 @@ def uncovered(prof, objects, path):
             ln, c = l[3:].split(",")[:2]
             if int(c) == 0:
                 miss.append(int(ln))
-        elif l == "end_of_record" and cur and cur.startswith("/repo/src/"):
+        elif l == "end_of_record" and cur and re.match(r"^(/repo|/verif/repo-link)/src/", cur):
+            cur = re.sub(r"^(/repo|/verif/repo-link)/src/", "/repo/src/", cur)
             # generic functions appear once per instantiation: a source line is entered if any instantiation was
             by_line = {}
             for name, ln in fns.items():
